@@ -467,7 +467,11 @@ def make_config(rng, i, optimiser=None):
 
 
 def build_groups(ctx):
-    rng = ctx.rng
+    import random as _random
+    base = ctx.rng.randrange(2 ** 30)
+
+    def rng_of(family, i):       # every configuration has its own stream: sizes of the families do not interact
+        return _random.Random('%d/%s/%d' % (base, family, i))
     n_single = ctx.budget(6, 48)
     n_par = ctx.budget(1, 10)
     n_api = ctx.budget(1, 4)
@@ -475,6 +479,7 @@ def build_groups(ctx):
         n_single, n_par, n_api = [int(x) for x in os.environ['C14_SIZES'].split(',')]
     groups = []
     for i in range(n_single):
+        rng = rng_of('single', i)
         cfg = make_config(rng, i)
         g = {'name': 's%d' % i, 'family': 'single', 'cfg': cfg, 'runs': []}
         if cfg['optimiser'] in POPULATIONAL and i % 4 == 2:
@@ -485,6 +490,7 @@ def build_groups(ctx):
         groups.append(g)
     par_kinds = ['evo', 'pop_random_mutation', 'surrogate']
     for i in range(n_par):
+        rng = rng_of('parallel', i)
         cfg = make_config(rng, 100 + i, optimiser=par_kinds[i % 3])
         cfg['parallelization_mode'] = 'populational'
         cfg['crossover'] = [['subtree'], ['exchange_edges'], ['none']][i % 3]   # hash order is examined by the other family
@@ -496,6 +502,7 @@ def build_groups(ctx):
             g['runs'].append(('i4', 'CWorkersIsolated', {'n_jobs': 4, 'isolate_joblib': True}))
         groups.append(g)
     for i in range(n_api):
+        rng = rng_of('facade', i)
         cfg = {'seed': rng.randrange(10 ** 6), 'num_of_generations': 3, 'pop_size': rng.choice([3, 4]), 'n_initial': 2 + i % 2,
                'multi': i % 2 == 1, 'scheme': SCHEMES[i % 3], 'crossover': [['subtree'], ['one_point'], ['exchange_edges']][i % 3],
                'optimiser': 'facade', 'objective': {'metrics': ['nodes', 'edges'] if i % 2 == 1 else ['nodes'], 'multi': i % 2 == 1}}
